@@ -492,10 +492,12 @@ def groupselectmin(table, key, value, presorted=False, buffersize=None,
     `value` field within each group. N.B., will only return one row for each
     group, even if multiple rows have the same (minimum) value."""
 
+    # N.B., sorting by value breaks any ordering by key, so the key sort
+    # cannot be skipped even if the input was presorted by key
     return groupselectfirst(sort(table, value, reverse=False,
                                  buffersize=buffersize, tempdir=tempdir,
                                  cache=cache), key,
-                            presorted=presorted, buffersize=buffersize,
+                            presorted=False, buffersize=buffersize,
                             tempdir=tempdir, cache=cache)
 
 
@@ -508,10 +510,12 @@ def groupselectmax(table, key, value, presorted=False, buffersize=None,
     `value` field within each group. N.B., will only return one row for each
     group, even if multiple rows have the same (maximum) value."""
 
+    # N.B., sorting by value breaks any ordering by key, so the key sort
+    # cannot be skipped even if the input was presorted by key
     return groupselectfirst(sort(table, value, reverse=True,
                                  buffersize=buffersize, tempdir=tempdir,
                                  cache=cache), key,
-                            presorted=presorted, buffersize=buffersize,
+                            presorted=False, buffersize=buffersize,
                             tempdir=tempdir, cache=cache)
 
 
